@@ -18,7 +18,7 @@ try:
     offs = re.findall(r'\("([^"]*)", "([^"]*)", "([^"]*)"\)', re.sub(r"\s+", " ", out))
     print("offenders:", offs)
     for pkg, name, v in offs[:4]:
-        m = re.search(r'\("%s", \(mkObject "%s".*?"%s" "%s"\)\)' % (re.escape(name), re.escape(name), re.escape(pkg), re.escape(name)), r["outcome"])
+        m = re.search(r'\("%s", \(mkObject "%s".*?\) "%s" "%s"\)\)' % (re.escape(name), re.escape(name), re.escape(pkg), re.escape(name)), r["outcome"])
         if m:
             print("  AFTER CHAIN %s.%s: %s" % (pkg, name, m.group(0)[:1200]))
     print("INPUT:", r["input"][:3000])
